@@ -395,6 +395,18 @@ func (fmtArea) Run(line string) string {
 			fail = "FAIL Count of the aggregate"
 		}
 		if fail == "" {
+			// a nil err starts from nothing: the first *Error argument is copied like the others, never adopted
+			a1, a2 := makeInner("a1"), makeInner("a2")
+			nr := makeAppend(nil, a1, a2)
+			if nr == a1 || nr.Count() != 2 || a1.Count() != 1 || a1.Message() != "a1" || a2.Count() != 1 {
+				fail = "FAIL Append(nil, a, b) modified or returned its first argument"
+			} else if makeAppend(nr, makeInner("a3")); a1.Count() != 1 || nr.Count() != 3 {
+				fail = "FAIL a later Append on the result of Append(nil, a, b) reached a"
+			} else if !strings.HasPrefix(nr.StackTrace(true), "    [main.makeInner] ") {
+				fail = "FAIL the copy of the first argument lost its stack"
+			}
+		}
+		if fail == "" {
 			for i, w := range r.WrappedErrors() {
 				if i > 0 && i%2 == 0 && !errors.Is(w, parts[i-1]) {
 					fail = "FAIL errors.Is does not reach a wrapped plain error inside the aggregate"
